@@ -13,7 +13,9 @@
 (*    GreedyNeverBetter the deviation is never shorter, may be longer or give up           *)
 EXTENDS SeqCompletionOps, TLC
 
-CONSTANTS ReqSyms, MaxReq,      \* required lists: all sequences over ReqSyms of length <= MaxReq
+CONSTANTS ReqSyms,
+          MaxReq1, MaxReq2,     \* required lists: all sequences over ReqSyms of length <= MaxReq1 (with
+                                \* single patterns) / <= MaxReq2 (with pairs of patterns)
           PatSyms,              \* symbols in enumerated patterns
           MaxOps1,              \* single patterns: <= MaxOps1 operators (-1: no single patterns)
           MaxOps2,              \* ordered pairs of patterns: each <= MaxOps2 operators (-1: no pairs)
@@ -27,10 +29,11 @@ Leaves == {Sym(a) : a \in PatSyms} \cup {Any, End}
 RECURSIVE SeqsUpTo(_, _)
 SeqsUpTo(S, n) == IF n = 0 THEN {<<>>}
                   ELSE LET R == SeqsUpTo(S, n - 1) IN R \cup {Append(s, x) : s \in {t \in R : Len(t) = n - 1}, x \in S}
-PatLists == (IF MaxOps1 = None THEN {} ELSE {<<>>} \cup {<<p>> : p \in PatsUpTo(MaxOps1, Leaves)})
-            \cup (IF MaxOps2 = None THEN {}
-                  ELSE {<<p, q>> : p \in PatsUpTo(MaxOps2, Leaves), q \in PatsUpTo(MaxOps2, Leaves)})
-Cases == [req : SeqsUpTo(ReqSyms, MaxReq), pats : PatLists, limit : Limits]
+Singles == IF MaxOps1 = None THEN {} ELSE {<<>>} \cup {<<p>> : p \in PatsUpTo(MaxOps1, Leaves)}
+Pairs   == IF MaxOps2 = None THEN {}
+           ELSE {<<p, q>> : p \in PatsUpTo(MaxOps2, Leaves), q \in PatsUpTo(MaxOps2, Leaves)}
+Cases == [req : SeqsUpTo(ReqSyms, MaxReq1), pats : Singles, limit : Limits]
+         \cup [req : SeqsUpTo(ReqSyms, MaxReq2), pats : Pairs, limit : Limits]
 
 VARIABLES cs,    \* the case (arguments of the call)
           st,    \* current search state (product state)
